@@ -273,11 +273,13 @@ class Escape(object):
                     break
         return out
 
-    def escapes_function(self, fi, node, cls):
-        """Does a fault of class cls raised at CFG node `node` of fi leave fi?  Returns
-        (escapes: bool, capture_handlers: [ast handler], path)"""
+    def escapes_function(self, fi, node, cls, cut_nodes=()):
+        """Does a fault of class cls raised at CFG node `node` of fi leave fi (without passing a
+        node of cut_nodes)?  Only this fault is followed: other calls are assumed not to raise.
+        Returns (escapes: bool, capture_handlers: [ast handler], path)"""
         cfg = cfg_of(fi)
         captures = []
+        cut = set(n.id for n in cut_nodes)
         # state: (node id, inflight)
         start = [(e.dst, True) for e in self.exc_edges(cfg, node.id, cls)]
         seen = set()
@@ -289,6 +291,8 @@ class Escape(object):
             seen.add((nid, inflight))
             nd = cfg.nodes[nid]
             path = path + [nid]
+            if nid in cut:
+                continue
             if nid == cfg.raise_exit:
                 return True, captures, [cfg.nodes[i] for i in path]
             if nid == cfg.exit:
